@@ -43,63 +43,101 @@ func CreateInMemory(parse parser.Parser) (*InMemory, error) {
 	root.node = rootInMemoryNode{}
 	root.pos = 0
 	root.parent = &root
-	err := createInMemory(&root, parse, 0)
+	err := createInMemory(&root, parse)
 	return &root, err
 }
 
-func createInMemory(cursor *InMemory, parse parser.Parser, pos int) error {
-	n, isEnd, err := parse.Pull()
+// createInMemory consumes the parser's events in a loop, so the stack does
+// not grow with the number of nodes.  pos is the last position handed out.
+func createInMemory(cursor *InMemory, parse parser.Parser) error {
+	pos := 0
 
-	if errors.Is(err, io.EOF) {
-		return nil
+	// An element's own namespace declarations arrive right after it.  The
+	// namespace nodes it inherits from its parent are added once they have
+	// all been seen, so that a declaration overrides an inherited prefix.
+	inheritPending := false
+
+	for {
+		n, isEnd, err := parse.Pull()
+
+		if _, isNamespace := n.(node.Namespace); inheritPending && !(err == nil && !isEnd && isNamespace) {
+			pos = inheritNamespaces(cursor, pos)
+			inheritPending = false
+		}
+
+		if errors.Is(err, io.EOF) {
+			return nil
+		}
+
+		if err != nil {
+			return err
+		}
+
+		if isEnd {
+			cursor = cursor.parent
+			continue
+		}
+
+		switch v := n.(type) {
+		case node.Namespace:
+			pos = addNamespace(v, cursor, pos)
+		case node.Attribute:
+			pos++
+			cursor.attributes = append(cursor.attributes, createNonElement(v, cursor, pos))
+		case node.Element:
+			pos++
+			next := createElement(v, cursor, pos)
+			cursor.nodes = append(cursor.nodes, next)
+			cursor = next
+			inheritPending = true
+		default:
+			pos++
+			cursor.nodes = append(cursor.nodes, createNonElement(v, cursor, pos))
+		}
 	}
-
-	if err != nil {
-		return err
-	}
-
-	if isEnd {
-		return createInMemory(cursor.parent, parse, pos)
-	}
-
-	switch v := n.(type) {
-	case node.Namespace:
-		pos = addNamespace(v, cursor, pos)
-	case node.Attribute:
-		pos++
-		cursor.attributes = append(cursor.attributes, createNonElement(v, cursor, pos))
-	case node.Element:
-		pos++
-		next, pos := createElement(v, cursor, pos)
-		cursor.nodes = append(cursor.nodes, next)
-		return createInMemory(next, parse, pos)
-	default:
-		pos++
-		cursor.nodes = append(cursor.nodes, createNonElement(v, cursor, pos))
-	}
-
-	return createInMemory(cursor, parse, pos)
 }
 
-func addNamespace(ns node.Namespace, cursor *InMemory, pos int) int {
-	toReplace := -1
-
-	for pos, i := range cursor.namespaces {
-		nsTest := i.(*InMemory).node.(node.Namespace)
-
-		if nsTest.Prefix() == ns.Prefix() {
-			toReplace = pos
-			break
+// findNamespace returns the index of the namespace node of cursor with the
+// given prefix, or -1.
+func findNamespace(cursor *InMemory, prefix string) int {
+	for i, c := range cursor.namespaces {
+		if c.(*InMemory).node.(node.Namespace).Prefix() == prefix {
+			return i
 		}
 	}
 
+	return -1
+}
+
+// addNamespace adds a namespace node declared on cursor.  A second
+// declaration of the same prefix replaces the first and keeps its position.
+func addNamespace(ns node.Namespace, cursor *InMemory, pos int) int {
+	toReplace := findNamespace(cursor, ns.Prefix())
+
 	if toReplace < 0 {
-		cursor.namespaces = append(cursor.namespaces, createNonElement(ns, cursor, pos))
+		cursor.namespaces = append(cursor.namespaces, createNonElement(ns, cursor, pos+1))
 		return pos + 1
 	}
 
 	nsPos := cursor.namespaces[toReplace].(*InMemory).pos
 	cursor.namespaces[toReplace] = createNonElement(ns, cursor, nsPos)
+	return pos
+}
+
+// inheritNamespaces gives cursor its own copy of every namespace node of its
+// parent whose prefix it does not declare itself.  Each element owns its
+// namespace nodes: they are never shared with (or renumbered under) another
+// element.
+func inheritNamespaces(cursor *InMemory, pos int) int {
+	for _, c := range cursor.parent.namespaces {
+		ns := c.(*InMemory).node.(node.Namespace)
+
+		if findNamespace(cursor, ns.Prefix()) < 0 {
+			pos++
+			cursor.namespaces = append(cursor.namespaces, createNonElement(ns, cursor, pos))
+		}
+	}
+
 	return pos
 }
 
@@ -112,23 +150,13 @@ func createNonElement(node node.Node, parent *InMemory, pos int) *InMemory {
 	return &next
 }
 
-func createElement(node node.Node, parent *InMemory, pos int) (*InMemory, int) {
+func createElement(node node.Node, parent *InMemory, pos int) *InMemory {
 	next := initElement()
 	next.node = node
 	next.pos = pos
 	next.parent = parent
 
-	ns := make([]Cursor, len(parent.namespaces))
-	copy(ns, parent.namespaces)
-
-	next.namespaces = ns
-
-	for _, i := range next.namespaces {
-		pos++
-		i.(*InMemory).pos = pos
-	}
-
-	return &next, pos + len(next.namespaces)
+	return &next
 }
 
 func (c *InMemory) Pos() int {
